@@ -489,6 +489,19 @@ func (s *sim) runSteal(nops int) {
 		si := 1 + s.rng.Intn(s.nsrc)
 		if s.step(op, pe, p, si, true) {
 			n++
+			// the write window of a piece a peer has just completed is short in real life: use it
+			if op == "PieceComplete" && s.rng.Intn(2) == 0 {
+				for k := 1; k <= s.nsrc; k++ {
+					if s.step("StartWebseed", 0, 0, k, true) {
+						n++
+					}
+				}
+				for k := 0; k < 2; k++ {
+					if s.step("Pick", 1+s.rng.Intn(s.npeers), 0, 0, true) {
+						n++
+					}
+				}
+			}
 		}
 	}
 }
